@@ -356,12 +356,57 @@ func genReify(g *Gen, mode string) {
 			var fix func(reflect.Value)
 			if isList && r.P(1, 3) {
 				cfgData, fix = lateFailure(r, t)
+			} else if isList && tcfg.Validators && r.P(1, 3) {
+				t, cfgData, fix = keptInvalid(r)
 			}
 			if c, ok := reifyUnpackCase(r, t, cfgData, []int{0, 0, 1, 2, 3}[r.Intn(5)], pz, fix); ok {
 				g.Add(c)
 			}
 		}
 	}
+}
+
+// keptInvalid: a list that the configuration extends (append / prepend) while the entries that
+// are kept from the pre-filled value violate a validator of their own: Unpack must reject them
+func keptInvalid(r *Rng) (*tyNode, map[string]interface{}, func(reflect.Value)) {
+	intT := &tyNode{Kind: "prim", Prim: primKinds[1]}
+	strT := &tyNode{Kind: "prim", Prim: primKinds[9]}
+	var elem *tyNode = &tyNode{Kind: "struct", Fields: []tyField{
+		{GoName: "P", CTag: "p", VTag: []string{"min=1", "nonzero", "positive,nonzero", "required"}[r.Intn(4)], T: intT},
+		{GoName: "Q", CTag: "q", T: strT}}}
+	if r.P(1, 3) {
+		elem = &tyNode{Kind: "ptr", Elem: elem}
+	}
+	tag := "l," + []string{"append", "append", "prepend"}[r.Intn(3)]
+	t := &tyNode{Kind: "struct", Fields: []tyField{
+		{GoName: "L", CTag: tag, T: &tyNode{Kind: "slice", Elem: elem}},
+		{GoName: "Z", CTag: "z", T: intT}}}
+	n := 1 + r.Intn(3)
+	bad := r.Intn(n)
+	k := 1 + r.Intn(2)
+	l := make([]interface{}, k)
+	for i := range l {
+		l[i] = map[string]interface{}{"p": int64(5), "q": "v"}
+	}
+	cfg := map[string]interface{}{"l": l, "z": int64(5)}
+	fix := func(v reflect.Value) {
+		s := reflect.MakeSlice(t.Fields[0].T.goType(), n, n)
+		for i := 0; i < n; i++ {
+			e := randGoValue(r, elem, 0)
+			st := e
+			for st.Kind() == reflect.Ptr {
+				st = st.Elem()
+			}
+			if i == bad || r.P(1, 3) {
+				st.Field(0).SetInt(0) // violates every one of the tags above
+			} else {
+				st.Field(0).SetInt(7)
+			}
+			s.Index(i).Set(e)
+		}
+		v.Field(0).Set(s)
+	}
+	return t, cfg, fix
 }
 
 // lateFailure: for a listStruct type, a pre-filled list of n valid entries and a configuration
